@@ -245,6 +245,61 @@ impl<BS: ArraySize, PAR: ArraySize> UfZ<BS, PAR> {
     }
 }
 
+/// Concrete, cheap, keyed byte-wise bijection (y[i] = rotl(x[i] + k0, 3) ^ k1) for LONG-CALL
+/// harnesses: many cipher calls in one harness are out of reach of the uninterpreted
+/// permutation (quadratic table).  A pass with this cipher is a statement about this cipher
+/// only; data, IV and key stay symbolic.  Encrypt-only like `UfE`.
+#[derive(Clone)]
+pub struct Lin<BS: ArraySize, PAR: ArraySize> {
+    pub key: [u8; 2],
+    _p: PhantomData<(BS, PAR)>,
+}
+#[inline(always)]
+pub fn lin_byte(key: [u8; 2], x: u8) -> u8 {
+    x.wrapping_add(key[0]).rotate_left(3) ^ key[1]
+}
+impl<BS: ArraySize, PAR: ArraySize> Lin<BS, PAR> {
+    pub fn with_key(key: [u8; 2]) -> Self {
+        Self { key, _p: PhantomData }
+    }
+}
+impl<BS: BlockSizes, PAR: ArraySize> BlockSizeUser for Lin<BS, PAR> {
+    type BlockSize = BS;
+}
+impl<BS: BlockSizes, PAR: ArraySize> ParBlocksSizeUser for Lin<BS, PAR> {
+    type ParBlocksSize = PAR;
+}
+impl<BS: BlockSizes, PAR: ArraySize> BlockCipherEncBackend for Lin<BS, PAR> {
+    #[inline(always)]
+    fn encrypt_block(&self, mut block: InOut<'_, '_, Block<Self>>) {
+        let mut y = [0u8; MAXB];
+        {
+            let x = block.get_in().as_slice();
+            let mut i = 0;
+            while i < BS::USIZE {
+                y[i] = lin_byte(self.key, x[i]);
+                i += 1;
+            }
+        }
+        let out = block.get_out().as_mut_slice();
+        let mut i = 0;
+        while i < BS::USIZE {
+            out[i] = y[i];
+            i += 1;
+        }
+    }
+}
+impl<BS: BlockSizes, PAR: ArraySize> BlockCipherEncrypt for Lin<BS, PAR> {
+    fn encrypt_with_backend(&self, f: impl BlockCipherEncClosure<BlockSize = BS>) {
+        f.call(self)
+    }
+}
+impl<BS: BlockSizes, PAR: ArraySize> AlgorithmName for Lin<BS, PAR> {
+    fn write_alg_name(f: &mut fmt::Formatter<'_>) -> fmt::Result {
+        f.write_str("Lin")
+    }
+}
+
 macro_rules! impl_enc {
     ($t:ident) => {
         impl<BS: BlockSizes, PAR: ArraySize> BlockSizeUser for $t<BS, PAR> {
